@@ -73,12 +73,12 @@ package replicaset
   loop 1 inv [srcs-valid] (forall ((j Int)) (=> (and (<= 0 j) (< j (slen {srcs})))
         (and (not (= (select (sarr {srcs}) j) vnil)) (not (= (obj-ns (select (sarr {srcs}) j)) |str!|)))))
   loop 1 inv [one-child-per-source] (= (slen {filters}) (+ {rangeindex} 1))
-  at call(Slice).after assert [sorted-by-namespace-then-name] (sortedByKey {srcs})
-  at call(Slice).after assert [same-elements-as-the-arguments] (sameElements {srcs} {sources})
-  at call(Slice).after assert [distinct-keys-preserved] (=> (distinctKeys {sources}) (distinctKeys {srcs}))
-  at call(Slice).after assert [same-elements-as-the-canonical-order] (sameElements {srcs} (sortedSources {sources}))
+  at call(Slice).after assert [step:sorted-by-namespace-then-name] (sortedByKey {srcs})
+  at call(Slice).after assert [step:same-elements-as-the-arguments] (sameElements {srcs} {sources})
+  at call(Slice).after assert [step:distinct-keys-preserved] (=> (distinctKeys {sources}) (distinctKeys {srcs}))
+  at call(Slice).after assert [step:same-elements-as-the-canonical-order] (sameElements {srcs} (sortedSources {sources}))
   at call(Slice).after apply SORT-sorted-sequences-with-the-same-distinct-keyed-elements-agree (a {srcs}) (b (sortedSources {sources}))
-  at call(Slice).after assert [is-the-canonical-order] (=> (distinctKeys {sources}) (forall ((q Int)) (=> (and (<= 0 q) (< q (slen {srcs})))
+  at call(Slice).after assert [step:is-the-canonical-order] (=> (distinctKeys {sources}) (forall ((q Int)) (=> (and (<= 0 q) (< q (slen {srcs})))
         (= (select (sarr {srcs}) q) (select (sarr (sortedSources {sources})) q)))))
   loop 1 inv [sources-in-canonical-order] (=> (distinctKeys {sources}) (forall ((q Int)) (=> (and (<= 0 q) (< q (slen {srcs})))
         (= (select (sarr {srcs}) q) (select (sarr (sortedSources {sources})) q)))))
@@ -95,10 +95,10 @@ package replicaset
 /*@ func types/replicaset.PodsFilter$1
   props C17
   note the less function handed to sort.Slice (which calls it with indices in range): sources are ordered by namespace, then name - the order that makes the filter independent of the order of the arguments
-  requires [indices-in-range] (and (<= 0 {i}) (< {i} (slen {srcs})) (<= 0 {j}) (< {j} (slen {srcs})))
-  requires [sources-non-nil] (and (not (= (select (sarr {srcs}) {i}) vnil)) (not (= (select (sarr {srcs}) {j}) vnil)))
-  ensures [orders-by-namespace-then-name] (= result (or (strlt {srcs[i].ObjectMeta.Namespace} {srcs[j].ObjectMeta.Namespace})
-        (and (= {srcs[i].ObjectMeta.Namespace} {srcs[j].ObjectMeta.Namespace}) (strlt {srcs[i].ObjectMeta.Name} {srcs[j].ObjectMeta.Name}))))
+  requires [indices-in-range] (and (<= 0 {i}) (< {i} (slen {$free0})) (<= 0 {j}) (< {j} (slen {$free0})))
+  requires [sources-non-nil] (and (not (= (select (sarr {$free0}) {i}) vnil)) (not (= (select (sarr {$free0}) {j}) vnil)))
+  ensures [orders-by-namespace-then-name] (= result (or (strlt {$free0[i].ObjectMeta.Namespace} {$free0[j].ObjectMeta.Namespace})
+        (and (= {$free0[i].ObjectMeta.Namespace} {$free0[j].ObjectMeta.Namespace}) (strlt {$free0[i].ObjectMeta.Name} {$free0[j].ObjectMeta.Name}))))
 @*/
 
 /*@ lemma C17-order-independent-replicaset-PodsFilter
